@@ -197,13 +197,44 @@ func genBPProg(r *RNG) *Prog {
 			p.Tags["pressure15"] = true
 		}
 		var vs []reg.GPVirtual
-		for j := 0; j < k; j++ {
-			v := coll.GP64()
-			vs = append(vs, v)
-			addI(p, must(x86.MOVQ(operand.U32(uint32(j)), v)), nil)
-		}
-		for j := 1; j < k; j++ {
-			addI(p, must(x86.ADDQ(vs[j], vs[0])), nil)
+		if r.Chance(40) { // values written only by 32-bit (or 16/8-bit) instructions
+			p.Tags["pressure-narrow"] = true
+			w := r.Intn(3)
+			for j := 0; j < k; j++ {
+				switch w {
+				case 0:
+					v := coll.GP32()
+					vs = append(vs, v)
+					addI(p, must(x86.MOVL(operand.U32(uint32(j)), v)), nil)
+				case 1:
+					v := coll.GP16()
+					vs = append(vs, v)
+					addI(p, must(x86.MOVW(operand.U16(uint16(j)), v)), nil)
+				default:
+					v := coll.GP8()
+					vs = append(vs, v)
+					addI(p, must(x86.MOVB(operand.U8(uint8(j)), v)), nil)
+				}
+			}
+			for j := 1; j < k; j++ {
+				switch w {
+				case 0:
+					addI(p, must(x86.ADDL(vs[j], vs[0])), nil)
+				case 1:
+					addI(p, must(x86.ADDW(vs[j], vs[0])), nil)
+				default:
+					addI(p, must(x86.ADDB(vs[j], vs[0])), nil)
+				}
+			}
+		} else {
+			for j := 0; j < k; j++ {
+				v := coll.GP64()
+				vs = append(vs, v)
+				addI(p, must(x86.MOVQ(operand.U32(uint32(j)), v)), nil)
+			}
+			for j := 1; j < k; j++ {
+				addI(p, must(x86.ADDQ(vs[j], vs[0])), nil)
+			}
 		}
 	}
 	// the function may also make a call or a system call: the frame rule does not depend on it
